@@ -2,7 +2,7 @@ package rules
 
 func init() {
 	property(&Property{ID: "C02", Level: "other",
-		Rules:       []string{"R-STALE", "R-LOOKBACK", "R-SHARD", "R-ATOFFSET", "R-ITERERR", "R-ZEROSTEP", "R-SELKEY", "R-REFPORT-SELECT", "R-CURSORRESET"},
+		Rules:       []string{"R-STALE", "R-LOOKBACK", "R-SHARD", "R-ATOFFSET", "R-ITERERR", "R-ZEROSTEP", "R-SELKEY", "R-REFPORT-SELECT", "R-CURSORRESET", "R-LOOKBACKASIS"},
 		Scope:       map[string][]string{"R-CURSORRESET": {"vectorSelector"}, "R-ITERERR": {"MemoizedSeriesIterator"}, "R-STALE": {"instant-vector sample", "emits iterator sample"}, "R-ZEROSTEP": {"vectorSelector"}},
 		Explanation: "Structural necessary conditions of instant-vector selection, decided for every path of the current source: no iterator sample reaches an emission without passing the staleness test; the per-query lookback delta reaches the plan; shard indices 0..n-1 are each instantiated once, n>=1, and merged by one coalesce; selector operators are built with the @-folded Offset while the select range uses Timestamp/OriginalOffset; a failing Seek is told apart from an exhausted iterator; step cursors cannot stall on instant queries.",
 		NotDecided: []string{
@@ -16,9 +16,9 @@ func init() {
 			"not decided: window maintenance across steps (previousPoints overlap reuse), the direction of edge comparisons between two variables, the order in which a kernel combines its operands, additions/subtractions (value-level). R-REFPORT-RANGE compares a decision signature that is invariant under renaming, reordering, helper extraction and if/else inversion; it would report a rewrite that replaces a comparison or an operation by a differently shaped equivalent one",
 		}})
 	property(&Property{ID: "C04", Level: "other",
-		Rules:       []string{"R-ACCRESET", "R-INTCONV", "R-SAMPLE0", "R-ONEPERSTEP", "R-PAIRING", "R-SORTEDNAMES", "R-TABLETS", "R-AGGNAME", "R-SHORTCUT", "R-ACCNONEMPTY", "R-ALLOCSIZE", "R-BATCHIDX", "R-VALIDEVERY", "R-REFPORT-AGG", "R-FILLRANGE", "R-COPYWRITE", "R-SCALAREND", "R-STEPEVERY", "R-REFERRORS", "R-NANSORT", "R-SENDEVERY", "R-EMPTYBY"},
+		Rules:       []string{"R-ACCRESET", "R-INTCONV", "R-SAMPLE0", "R-ONEPERSTEP", "R-PAIRING", "R-SORTEDNAMES", "R-TABLETS", "R-AGGNAME", "R-SHORTCUT", "R-ACCNONEMPTY", "R-ALLOCSIZE", "R-BATCHIDX", "R-VALIDEVERY", "R-REFPORT-AGG", "R-FILLRANGE", "R-COPYWRITE", "R-SCALAREND", "R-STEPEVERY", "R-REFERRORS", "R-NANSORT", "R-SENDEVERY", "R-EMPTYBY", "R-STRICTCMP"},
 		Scope:       map[string][]string{"R-SENDEVERY": {"execution/aggregate"}, "R-REFERRORS": {"execution/aggregate"}, "R-STEPEVERY": {"execution/aggregate"}, "R-SCALAREND": {"ggregate"}, "R-COPYWRITE": {"execution/aggregate"}, "R-FILLRANGE": {"execution/aggregate"}, "R-BATCHIDX": {"execution/aggregate"}, "R-PAIRING": {"execution/aggregate", "model.VectorPool"}, "R-SAMPLE0": {"execution/aggregate"}, "R-SHORTCUT": {"execution/aggregate"}, "R-SORTEDNAMES": {"execution/aggregate"}, "R-ONEPERSTEP": {"execution/aggregate"}},
-		Explanation: "Structural necessary conditions of aggregation: every accumulator is completely reset per step (tables are reused for every batch); the k/quantile parameter is NaN/range-tested before it is used as an integer; a parameter absent at a step is not indexed; one step vector per step; IDs and values are written in pairs; the grouping names handed to the label hashes are the sorted slice. An empty-grouping short cut depends on the by/without flag; the ungrouped sum/count/group accumulators decide like the reference arm.",
+		Explanation: "Structural necessary conditions of aggregation: every accumulator is completely reset per step (tables are reused for every batch); the k/quantile parameter is NaN/range-tested before it is used as an integer; a parameter absent at a step is not indexed; one step vector per step; IDs and values are written in pairs; the grouping names handed to the label hashes are the sorted slice. An empty-grouping short cut depends on the by/without flag; the ungrouped sum/count/group accumulators decide like the reference arm. Sample comparators are strict comparisons.",
 		NotDecided: []string{
 			"not decided: the group keys/labels beyond the structural clauses, the reduction values of avg/stddev/stdvar (different algorithms from the reference arm, not compared), tie handling (value-level)",
 		}})
@@ -30,9 +30,9 @@ func init() {
 			"not decided: which pairs match, the values beyond 'each table entry applies the reference operation to (left, right)', the step at which an ambiguous match is reported (value-level); an operator missing from the operation tables falls back correctly and is covered by C08",
 		}})
 	property(&Property{ID: "C06", Level: "other",
-		Rules:       []string{"R-SENTINEL", "R-POINTFIELDS", "R-PAIRING", "R-ZEROSTEP", "R-SAMPLE0", "R-STEPBOUND", "R-EMPTYSERIES", "R-POINT0", "R-TABLETS", "R-OUTALIAS", "R-HASHSAME", "R-PULLALL", "R-TRUNCDIV", "R-STEPTS", "R-BATCHIDX", "R-REFPORT-INSTANT", "R-OPTABLE", "R-LABELPOS", "R-FILLRANGE", "R-PINNEDPLAN", "R-COPYWRITE", "R-SCALAREND", "R-STEPEVERY", "R-SENDEVERY", "R-PUTONCE", "R-STALEGUARD"},
+		Rules:       []string{"R-SENTINEL", "R-POINTFIELDS", "R-PAIRING", "R-ZEROSTEP", "R-SAMPLE0", "R-STEPBOUND", "R-EMPTYSERIES", "R-POINT0", "R-TABLETS", "R-OUTALIAS", "R-HASHSAME", "R-PULLALL", "R-TRUNCDIV", "R-STEPTS", "R-BATCHIDX", "R-REFPORT-INSTANT", "R-OPTABLE", "R-LABELPOS", "R-FILLRANGE", "R-PINNEDPLAN", "R-COPYWRITE", "R-SCALAREND", "R-STEPEVERY", "R-SENDEVERY", "R-PUTONCE", "R-STALEGUARD", "R-ONCEPERITER", "R-BUFRESET"},
 		Scope:       map[string][]string{"R-SENDEVERY": {"execution/unary"}, "R-PUTONCE": {"execution/function", "execution/unary", "scalarOperator"}, "R-STEPEVERY": {"execution/function", "step_invariant", "scalarOperator", "numberLiteralSelector"}, "R-SCALAREND": {"scalarOperator"}, "R-COPYWRITE": {"execution/function", "execution/unary", "execution/step_invariant"}, "R-FILLRANGE": {"execution/function"}, "R-BATCHIDX": {"execution/function", "execution/unary", "execution/binary.scalarOperator"}, "R-PAIRING": {"execution/function", "numberLiteralSelector", "step_invariant", "execution/unary", "model.VectorPool"}, "R-SAMPLE0": {"execution/function", "execution/binary.scalarOperator"}, "R-SENTINEL": {"functionOperator", "noArgFunctionOperator"}, "R-STEPTS": {"execution/function", "numberLiteralSelector", "step_invariant", "scalarOperator"}, "R-PULLALL": {"functionOperator", "unaryNegation", "stepInvariantOperator", "scalarOperator"}, "R-STEPBOUND": {"numberLiteralSelector", "noArgFunctionOperator", "stepInvariantOperator"}, "R-EMPTYSERIES": {"functionOperator", "noArgFunctionOperator", "numberLiteralSelector", "histogramOperator", "unaryNegation", "stepInvariantOperator", "scalarOperator"}, "R-ZEROSTEP": {"numberLiteralSelector", "noArgFunctionOperator", "stepInvariantOperator"}, "R-OPTABLE": {"operations["}},
-		Explanation: "Structural necessary conditions of instant functions and scalars: the instant-function call site drops samples its kernel declares absent; every Point field a kernel reads is stored by the call site; IDs/values are written in pairs (time(), scalar()); generator operators cannot stall on a zero step and never emit past the window end; scalar operands are indexed only behind a length test.",
+		Explanation: "Structural necessary conditions of instant functions and scalars: the instant-function call site drops samples its kernel declares absent; every Point field a kernel reads is stored by the call site; IDs/values are written in pairs (time(), scalar()); generator operators cannot stall on a zero step and never emit past the window end; scalar operands are indexed only behind a length test. Per-batch buffers are emptied per batch; one sample per iteration and path.",
 		NotDecided: []string{
 			"not decided: function values beyond the decision signature (e.g. clamp with a NaN bound: max<min and !(min<=max) have the same signature), alignment of scalar operands whose stream is shorter but not empty, replication of @-pinned vectors (value-level)",
 		}})
@@ -44,20 +44,22 @@ func init() {
 			"trusted: the induction over the AST that combines the obligations, the parser's type checking of argument kinds",
 		}})
 	property(&Property{ID: "C09", Level: "other",
-		Rules:       []string{"R-SLOTPTR", "R-LABELFRESH", "R-MATCHEQ", "R-ATOFFSET", "R-NODECOPY", "R-MEMOKEY", "R-MATCHPOS", "R-FILTERALL", "R-MATCHGROW", "R-DROPEXACT", "R-ONFLAG", "R-FOREIGNAPPEND", "R-SORTEDNAMES"},
-		Scope:       map[string][]string{"R-SORTEDNAMES": {"execution/storage"}},
-		Explanation: "Structural necessary conditions of the logical optimizers: every traversal hands out pointers to real slots of the tree, so a replacement (made after in-place edits of the replaced node) lands in the tree in every syntactic position; matcher slices are edited in place only on fresh copies; the subset test that licenses replacing a selector compares name, type and value of the matchers. Name lists handed to the sorted-names label APIs by the merged-select filter are sorted values.",
+		Rules:       []string{"R-SLOTPTR", "R-LABELFRESH", "R-MATCHEQ", "R-ATOFFSET", "R-NODECOPY", "R-MEMOKEY", "R-MATCHPOS", "R-FILTERALL", "R-MATCHGROW", "R-DROPEXACT", "R-ONFLAG", "R-FOREIGNAPPEND", "R-SORTEDNAMES", "R-SELFCALL"},
+		Scope:       map[string][]string{"R-SELFCALL": {"logicalplan."}, "R-SORTEDNAMES": {"execution/storage"}},
+		Explanation: "Structural necessary conditions of the logical optimizers: every traversal hands out pointers to real slots of the tree, so a replacement (made after in-place edits of the replaced node) lands in the tree in every syntactic position; matcher slices are edited in place only on fresh copies; the subset test that licenses replacing a selector compares name, type and value of the matchers. Name lists handed to the sorted-names label APIs by the merged-select filter are sorted values. Traversals pass the node as the parent of its child slot; recursive walkers make progress.",
 		NotDecided: []string{
 			"not decided: that the rewrites preserve semantics in general; decided are the clauses whose violation produced the defects found so far: every matcher is applied with the value looked up by name, a selector's matcher list is only grown or taken over whole, deletion by label name is reserved for the metric name, matchers are compared by (name, type, value), no positional access",
 		}})
 	property(&Property{ID: "C10", Level: "other",
-		Rules:       []string{"R-SLOTPTR", "R-DISTTABLE", "R-REMOTELOOKBACK", "R-SHARD", "R-PUSHDOWN", "R-NODECOPY", "R-EXPRORIGIN", "R-CORECOUNT", "R-ONEBATCHSIZE", "R-VALUESWITCH", "R-REMOTETEXT", "R-WINDOWARGS"},
-		Explanation: "Structural necessary conditions of distributed execution: push-down rewrites land in the tree in every position; only algebraically distributive aggregations are pushed, count is re-aggregated with sum; remote results are read by exact timestamp (no second lookback); the remote reader is a single complete shard; the bottom-up traversal stops (returns true) for every node kind other than the distributive ones it recurses into, so nothing else is pushed down whole. The text of a remote sub-query is rendered after node types of other optimizers were converted; the remote-engine adapter hands the window on unchanged.",
+		Rules:       []string{"R-SLOTPTR", "R-DISTTABLE", "R-REMOTELOOKBACK", "R-SHARD", "R-PUSHDOWN", "R-NODECOPY", "R-EXPRORIGIN", "R-CORECOUNT", "R-ONEBATCHSIZE", "R-VALUESWITCH", "R-REMOTETEXT", "R-WINDOWARGS", "R-DISTLAST", "R-SELFCALL", "R-LOOKBACKASIS"},
+		Scope:       map[string][]string{"R-SELFCALL": {"logicalplan."}},
+		Explanation: "Structural necessary conditions of distributed execution: push-down rewrites land in the tree in every position; only algebraically distributive aggregations are pushed, count is re-aggregated with sum; remote results are read by exact timestamp (no second lookback); the remote reader is a single complete shard; the bottom-up traversal stops (returns true) for every node kind other than the distributive ones it recurses into, so nothing else is pushed down whole. The text of a remote sub-query is rendered after node types of other optimizers were converted; the remote-engine adapter hands the window on unchanged. The distribution optimizer runs last; selectors store the look-back of their options as it is.",
 		NotDecided: []string{
 			"not decided: that no selector is left outside a remote execution for every tree shape; commutation with the union for all data (value-level)",
 		}})
 	property(&Property{ID: "C11", Level: "other",
-		Rules:       []string{"R-SHARD", "R-LINEAR", "R-GOSHARED", "R-SHARDCOPY", "R-SLABCAP", "R-PUTORDER", "R-CORECOUNT", "R-POOLLINEAR", "R-CURSORRESET", "R-NANSORT", "R-POOLWRITE"},
+		Rules:       []string{"R-SHARD", "R-LINEAR", "R-GOSHARED", "R-SHARDCOPY", "R-SLABCAP", "R-PUTORDER", "R-CORECOUNT", "R-POOLLINEAR", "R-CURSORRESET", "R-NANSORT", "R-POOLWRITE", "R-IDOFFSET", "R-SELFCALL"},
+		Scope:       map[string][]string{"R-SELFCALL": {"hands out one batch"}},
 		Explanation: "Structural necessary conditions of determinism: no shard is lost or duplicated for any shard count; no operator is consumed by two parents; every variable shared with a goroutine is written index-privately, under a mutex that covers all its accesses, or before a channel/WaitGroup hand-off; shard slices handed to operators are private copies of the shared series list. Series lists are written (element stores, appends) only when allocated here or while the owner builds its own list, and are handed out as copies; pool Get/Put methods write no pool field.",
 		NotDecided: []string{
 			"not decided: slicing arithmetic, arrival-order dependent tie-breaking, float summation order, NaN ordering (value-/schedule-level)",
@@ -69,14 +71,14 @@ func init() {
 			"not decided: race freedom inside dependencies and the storage; aliasing the rules do not model",
 		}})
 	property(&Property{ID: "C13", Level: "other",
-		Rules:       []string{"R-PANICDOMAIN", "R-WRAP", "R-RECOVERTOTAL", "R-INITBEFOREUSE", "R-INTCONV", "R-SAMPLE0", "R-KERNELBOUNDS", "R-DEFERORDER", "R-POINT0", "R-ACCNONEMPTY", "R-ALLOCSIZE", "R-QUERYCLOSE", "R-BATCHIDX", "R-LOCKDEFER", "R-STALEGUARD", "R-WRAPRET", "R-NILFIELD"},
-		Explanation: "Structural necessary conditions of crash containment: the API entry and every goroutine that can reach a user-supplied callback is a recovered panic domain; every recovered value is reported; the recovering defer runs before the defer that closes the channel it reports on; no operator state is used before its once-guarded initialiser; run-time floats are tested before integer conversion; scalar operands and windows are indexed behind length tests. The exchange constructors always return their own (recovering) operator; optional operator fields are used only behind their nil test.",
+		Rules:       []string{"R-PANICDOMAIN", "R-WRAP", "R-RECOVERTOTAL", "R-INITBEFOREUSE", "R-INTCONV", "R-SAMPLE0", "R-KERNELBOUNDS", "R-DEFERORDER", "R-POINT0", "R-ACCNONEMPTY", "R-ALLOCSIZE", "R-QUERYCLOSE", "R-BATCHIDX", "R-LOCKDEFER", "R-STALEGUARD", "R-WRAPRET", "R-NILFIELD", "R-NOREPANIC", "R-DISTLAST", "R-SELFCALL"},
+		Explanation: "Structural necessary conditions of crash containment: the API entry and every goroutine that can reach a user-supplied callback is a recovered panic domain; every recovered value is reported; the recovering defer runs before the defer that closes the channel it reports on; no operator state is used before its once-guarded initialiser; run-time floats are tested before integer conversion; scalar operands and windows are indexed behind length tests. The exchange constructors always return their own (recovering) operator; optional operator fields are used only behind their nil test. A recovered value is never raised again; recursive tree walkers make progress.",
 		NotDecided: []string{
 			"not decided: fatal runtime errors recover cannot catch (concurrent map writes, stack exhaustion), out-of-memory; panics on worker goroutines caused by defects inside the aggregation tables themselves (no user callback is reachable there)",
 		}})
 	property(&Property{ID: "C14", Level: "other",
-		Rules:       []string{"R-LOSTCANCEL", "R-APIFIELDSYNC", "R-ZEROSTEP", "R-CANCELEARLY", "R-CHANCAP", "R-WORKERCLOSE", "R-CTXDERIVED", "R-QUERYCLOSE", "R-LOCKDEFER", "R-CANCELLOCK", "R-RELEASEFN", "R-DONEPARAM", "R-SENDEVERY"},
-		Explanation: "Structural necessary conditions of cancellation: the per-execution context is cancelled on every return; the cancel function is published to Cancel/Close (under the mutex) before Exec makes its first call into the plan; step cursors terminate on instant queries; every error channel a goroutine sends on without a select has capacity for all its senders, so a sender never blocks after its receiver returned early. An error channel fed by goroutines started in a loop has room for all of them.",
+		Rules:       []string{"R-LOSTCANCEL", "R-APIFIELDSYNC", "R-ZEROSTEP", "R-CANCELEARLY", "R-CHANCAP", "R-WORKERCLOSE", "R-CTXDERIVED", "R-QUERYCLOSE", "R-LOCKDEFER", "R-CANCELLOCK", "R-RELEASEFN", "R-DONEPARAM", "R-SENDEVERY", "R-CTXEXIT"},
+		Explanation: "Structural necessary conditions of cancellation: the per-execution context is cancelled on every return; the cancel function is published to Cancel/Close (under the mutex) before Exec makes its first call into the plan; step cursors terminate on instant queries; every error channel a goroutine sends on without a select has capacity for all its senders, so a sender never blocks after its receiver returned early. An error channel fed by goroutines started in a loop has room for all of them. Where the context is found done, every return carries the context's error.",
 		NotDecided: []string{
 			"not decided: 'within bounded time'; storage callbacks that ignore the context; that the context's error rather than a value is returned on the last batch; full deadlock freedom of the worker protocol (R-CHAN of the design was withdrawn, see DESIGN.md)",
 		}})
@@ -87,25 +89,26 @@ func init() {
 			"not decided: wrapping fidelity of the final error; the once-guarded loaders do not latch their error (no plan was found in which that yields a successful result)",
 		}})
 	property(&Property{ID: "C16", Level: "other",
-		Rules:       []string{"R-HINTXFER", "R-HINTRANGE", "R-SELKEY", "R-NODECOPY", "R-MEMOKEY", "R-REFPORT-HINTS", "R-SORTCOPY"},
-		Explanation: "Structural necessary conditions of select hints: per node kind the Func/Grouping/By hints are transferred to the children exactly as the reference derives them from the path (shape of the pinned extractFuncFromPath/extractGroupsFromPath re-read on every run); the querier range and hinted range are the same values from one range computation; the select-cache key covers every select parameter that can differ between two selects (range start and end, step, function, grouping, by).",
+		Rules:       []string{"R-HINTXFER", "R-HINTRANGE", "R-SELKEY", "R-NODECOPY", "R-MEMOKEY", "R-REFPORT-HINTS", "R-SORTCOPY", "R-HINTSTEP", "R-SELECTMATCHERS"},
+		Explanation: "Structural necessary conditions of select hints: per node kind the Func/Grouping/By hints are transferred to the children exactly as the reference derives them from the path (shape of the pinned extractFuncFromPath/extractGroupsFromPath re-read on every run); the querier range and hinted range are the same values from one range computation; the select-cache key covers every select parameter that can differ between two selects (range start and end, step, function, grouping, by). The step hint is written once; the matcher list reaches Select unchanged.",
 		NotDecided: []string{
 			"not decided: the values of the start/end arithmetic beyond 'only the reference's kinds of integer operations'; sufficiency of the range under optimizer rewrites (value-level)",
 		}})
 	property(&Property{ID: "C17", Level: "other",
-		Rules:       []string{"R-QUERIER", "R-LABELFRESH", "R-QUERYCLOSE", "R-JOIN", "R-WRAPRET"},
+		Rules:       []string{"R-QUERIER", "R-LABELFRESH", "R-QUERYCLOSE", "R-JOIN", "R-WRAPRET", "R-NOREPANIC"},
 		Explanation: "Structural necessary conditions of storage ownership: every querier is closed exactly once by an unconditional defer placed right after the error check; nothing is opened at query creation; label sets are edited in place only on fresh copies; every goroutine that can reach the storage is joined by its spawner on every path to a return, so that no select (and no open querier) outlives Exec. The exchange constructors always return their own operator (the boundary the join and recover arguments rely on).",
 		NotDecided: []string{
 			"not decided: sort.Sort on uncopied (already sorted) storage labels performs no writes - assumed; closing of remote queries that are created but never executed; R-JOIN decides that each spawner waits for its storage-reaching goroutine on every path, not that a single receive from the pull goroutine's buffer means that goroutine has finished",
 		}})
 	property(&Property{ID: "C18", Level: "other",
-		Rules:       []string{"R-INITBEFOREUSE", "R-PAIRING", "R-ONEPERSTEP", "R-STALE", "R-LINEAR", "R-STEPBOUND", "R-SHARDCOPY", "R-TSTAMP", "R-EMPTYSERIES", "R-TABLETS", "R-OUTALIAS", "R-PULLALL", "R-PUTORDER", "R-ENDSTICKY", "R-STEPTS", "R-ONEBATCHSIZE", "R-CURSORRESET", "R-STEPEVERY", "R-GRIDMILLIS"},
-		Explanation: "Structural necessary conditions of the stream contract: operators serve batches whether or not Series was called first; IDs and values are written in pairs; one step vector per step; no staleness marker is emitted; one consumer per operator; generator loops are bounded by the window end; shards renumber private copies; a step vector's timestamp comes from the step grid, not from sample data. Arithmetic on the evaluation window goes through truncated milliseconds; a kernel never returns the zero sample next to stamped ones.",
+		Rules:       []string{"R-INITBEFOREUSE", "R-PAIRING", "R-ONEPERSTEP", "R-STALE", "R-LINEAR", "R-STEPBOUND", "R-SHARDCOPY", "R-TSTAMP", "R-EMPTYSERIES", "R-TABLETS", "R-OUTALIAS", "R-PULLALL", "R-PUTORDER", "R-ENDSTICKY", "R-STEPTS", "R-ONEBATCHSIZE", "R-CURSORRESET", "R-STEPEVERY", "R-GRIDMILLIS", "R-ONCEPERITER", "R-BUFRESET", "R-IDOFFSET", "R-SELFCALL"},
+		Scope:       map[string][]string{"R-SELFCALL": {"hands out one batch"}},
+		Explanation: "Structural necessary conditions of the stream contract: operators serve batches whether or not Series was called first; IDs and values are written in pairs; one step vector per step; no staleness marker is emitted; one consumer per operator; generator loops are bounded by the window end; shards renumber private copies; a step vector's timestamp comes from the step grid, not from sample data. Arithmetic on the evaluation window goes through truncated milliseconds; a kernel never returns the zero sample next to stamped ones. Next never calls itself; merged sample IDs are translated, not renumbered.",
 		NotDecided: []string{
 			"not decided: uniqueness and range of sample IDs, monotone step order, 'ended stays ended' (value-level)",
 		}})
 	property(&Property{ID: "C19", Level: "other",
-		Rules:       []string{"R-LABELBUILD", "R-RESULTSHAPE", "R-STALE", "R-TSTAMP", "R-LABELFRESH", "R-HASHSAME", "R-EXPRORIGIN", "R-STEPTS", "R-LABELPOS"},
+		Rules:       []string{"R-LABELBUILD", "R-RESULTSHAPE", "R-STALE", "R-TSTAMP", "R-LABELFRESH", "R-HASHSAME", "R-EXPRORIGIN", "R-STEPTS", "R-LABELPOS", "R-ONCEPERITER"},
 		Explanation: "Structural necessary conditions of result well-formedness: label sets are not grown by raw appends; the matrix is sorted, empty series pruned, instant samples stamped with the evaluation time; no staleness marker is emitted; kernels stamp their result with the step time; label sets shared through the selector pool are not edited in place. The range result is sorted in the reference's label order.",
 		NotDecided: []string{
 			"not decided: pairwise distinct label sets after name dropping, timestamps on the grid for every operator, overflow/denormal values (value-level)",
